@@ -45,6 +45,9 @@ func TestMain(m *testing.M) {
 		// race-probe child process: no evidence file, plain run of the selected test.
 		os.Unsetenv("VERIF_SHARD_OUT")
 	}
+	// the programs allocate many short-lived runtimes; fewer collections keep the Go runtime's
+	// background sweeper from dominating the CPU time of a shard
+	debug.SetGCPercent(400)
 	evid.Main(m, "C10")
 }
 
@@ -424,13 +427,25 @@ func (a *attempt) Allocate(_, _ uint64) experimental.LinearMemory {
 }
 
 type linMem struct {
-	a   *attempt
-	buf []byte
+	a      *attempt
+	buf    []byte
+	pooled *[]byte
 }
+
+// pagePool recycles the one-page buffers of the guests' memories (they dominate the garbage
+// collector's work otherwise). A buffer goes back only on the first Free of its memory.
+var pagePool = sync.Pool{New: func() any { b := make([]byte, 65536); return &b }}
 
 func (l *linMem) Reallocate(size uint64) []byte {
 	if uint64(cap(l.buf)) < size {
-		nb := make([]byte, size)
+		var nb []byte
+		if size <= 65536 && l.pooled == nil {
+			l.pooled = pagePool.Get().(*[]byte)
+			nb = (*l.pooled)[:size]
+			clear(nb)
+		} else {
+			nb = make([]byte, size)
+		}
 		copy(nb, l.buf)
 		l.buf = nb
 	}
@@ -438,7 +453,11 @@ func (l *linMem) Reallocate(size uint64) []byte {
 	return l.buf
 }
 
-func (l *linMem) Free() { l.a.frees.Add(1) }
+func (l *linMem) Free() {
+	if l.a.frees.Add(1) == 1 && l.pooled != nil {
+		pagePool.Put(l.pooled)
+	}
+}
 
 var spinSink atomic.Uint64
 
